@@ -41,9 +41,10 @@ Qed.
 
 Definition step_res_eqb := outcome_eqb (prod_eqb ev_state_eqb ev_res_eqb).
 
+(* C04 looks at the new STATE only (what the step returns is C14's business) *)
 Definition bad_step (I : EvImpl) (x : ev_state * KeyEvent) : bool :=
   ev_reach I (fst x) &&
-  negb (step_res_eqb (ev_step I (fst x) (snd x)) (Ret (spec_ev_step (fst x) (snd x)))
+  negb (outcome_eqb ev_state_eqb (omap fst (ev_step I (fst x) (snd x))) (Ret (fst (spec_ev_step (fst x) (snd x))))
         && ev_reach I (fst (spec_ev_step (fst x) (snd x)))).
 Definition bad_mode (I : EvImpl) (x : ev_state * HandleControl) : bool :=
   ev_reach I (fst x) &&
@@ -105,13 +106,14 @@ Section Sound.
   Hypothesis Hi : cex_init I = [].
 
   Lemma step_ok : forall s ev, ev_reach I s = true ->
-    ev_step I s ev = Ret (spec_ev_step s ev) /\ ev_reach I (fst (spec_ev_step s ev)) = true.
+    (exists r, ev_step I s ev = Ret (fst (spec_ev_step s ev), r)) /\ ev_reach I (fst (spec_ev_step s ev)) = true.
   Proof.
     intros s ev Hr.
     assert (Hin : In (s, ev) all_steps) by (apply in_prod; [apply all_ev_state_complete | apply all_KeyEvent_complete]).
     pose proof (filter_nil_forall _ _ Hs (s, ev) Hin) as H. unfold bad_step in H. cbn [fst snd] in H.
     rewrite Hr in H. cbn [andb] in H. apply negb_false_iff in H. apply andb_prop in H as [H1 H2].
-    unfold step_res_eqb in H1. beq H1. auto.
+    beq H1. split; [|exact H2]. destruct (ev_step I s ev) as [[s' r]|]; [|discriminate].
+    cbn [omap fst] in H1. injection H1 as ->. eauto.
   Qed.
   Lemma mode_ok : forall s hc, ev_reach I s = true ->
     ev_setmode I s hc = Ret (fst s, hc) /\ ev_reach I (fst s, hc) = true.
@@ -128,14 +130,15 @@ Section Sound.
     unfold bad_init in H. apply negb_false_iff in H. apply andb_prop in H as [H1 H2]. beq H1. auto.
   Qed.
 
-  (* C14 + C04 on the implementation: every run is the abstract run *)
-  Theorem ev_run_sound : forall ops s, ev_reach I s = true -> impl_run I s ops = Ret (spec_run s ops).
+  (* on the implementation every run goes through the abstract run's states *)
+  Theorem ev_run_sound : forall ops s, ev_reach I s = true ->
+    exists rs, impl_run I s ops = Ret (fst (spec_run s ops), rs).
   Proof.
     induction ops as [|[ev|hc] ops IH]; intros s Hr; cbn [impl_run spec_run].
-    - reflexivity.
-    - destruct (step_ok s ev Hr) as [E Hr']. rewrite E.
-      destruct (spec_ev_step s ev) as [s' r]. cbn [fst] in Hr'. rewrite (IH s' Hr').
-      destruct (spec_run s' ops). reflexivity.
+    - eauto.
+    - destruct (step_ok s ev Hr) as [[r E] Hr']. rewrite E.
+      destruct (spec_ev_step s ev) as [s' r0]. cbn [fst] in *. destruct (IH s' Hr') as [rs R]. rewrite R.
+      destruct (spec_run s' ops). cbn [fst]. eauto.
     - destruct (mode_ok s hc Hr) as [E Hr']. rewrite E. apply IH. exact Hr'.
   Qed.
 
@@ -146,8 +149,7 @@ Section Sound.
     exists rs, impl_run I s0 ops = Ret ((after (eevents ops), last_mode hc0 ops), rs).
   Proof.
     intros hc0 ops. destruct (init_ok hc0) as [E Hr]. exists (initial_mods, hc0). split; [exact E|].
-    rewrite (ev_run_sound ops _ Hr). pose proof (spec_run_state ops initial_mods hc0) as H.
-    destruct (spec_run (initial_mods, hc0) ops) as [s rs]. simpl in H. subst s. rewrite history. eauto.
+    destruct (ev_run_sound ops _ Hr) as [rs R]. rewrite R. rewrite (spec_run_state ops initial_mods hc0), history. eauto.
   Qed.
 End Sound.
 
@@ -219,38 +221,35 @@ Section Generic.
   Variable process : EventDecoder L -> KeyEvent -> outcome (EventDecoder L * option DecodedKey).
   Variable set_mode : EventDecoder L -> HandleControl -> outcome (EventDecoder L * unit).
   Variable set_layout : EventDecoder L -> L -> outcome (EventDecoder L * unit).
-  Hypothesis Hp : forall d ev, process d ev = spec_process f d ev.
+  Hypothesis Hp : forall d ev, omap fst (process d ev) = omap fst (spec_process f d ev).
   Hypothesis Hm : forall d hc, set_mode d hc = Ret (EventDecoder_mk hc (EventDecoder_modifiers d) (EventDecoder_layout d), tt).
   Hypothesis Hl : forall d l, set_layout d l = Ret (EventDecoder_mk (EventDecoder_handle_ctrl d) (EventDecoder_modifiers d) l, tt).
 
-  Definition gen_op (d : EventDecoder L) (op : ev_op (L:=L)) : outcome (EventDecoder L * option DecodedKey) :=
+  (* the decoder state after one operation / a sequence of operations (results are C14's business) *)
+  Definition gen_op (d : EventDecoder L) (op : ev_op (L:=L)) : outcome (EventDecoder L) :=
     match op with
-    | OpEvent ev => process d ev
-    | OpMode hc => omap (fun p => (fst p, None)) (set_mode d hc)
-    | OpLayout l => omap (fun p => (fst p, None)) (set_layout d l)
+    | OpEvent ev => omap fst (process d ev)
+    | OpMode hc => omap fst (set_mode d hc)
+    | OpLayout l => omap fst (set_layout d l)
     end.
-  Fixpoint gen_run (d : EventDecoder L) (ops : list (ev_op (L:=L))) : outcome (EventDecoder L * list (option DecodedKey)) :=
+  Fixpoint gen_run (d : EventDecoder L) (ops : list (ev_op (L:=L))) : outcome (EventDecoder L) :=
     match ops with
-    | [] => Ret (d, [])
-    | op :: rest => match gen_op d op with
-                    | Ret (d', r) => match gen_run d' rest with Ret (d'', rs) => Ret (d'', r :: rs) | Panic => Panic end
-                    | Panic => Panic end
+    | [] => Ret d
+    | op :: rest => match gen_op d op with Ret d' => gen_run d' rest | Panic => Panic end
     end.
-  Fixpoint spec_gen_run (d : EventDecoder L) (ops : list (ev_op (L:=L))) : outcome (EventDecoder L * list (option DecodedKey)) :=
+  Fixpoint spec_gen_run (d : EventDecoder L) (ops : list (ev_op (L:=L))) : outcome (EventDecoder L) :=
     match ops with
-    | [] => Ret (d, [])
-    | op :: rest => match spec_op f d op with
-                    | Ret (d', r) => match spec_gen_run d' rest with Ret (d'', rs) => Ret (d'', r :: rs) | Panic => Panic end
-                    | Panic => Panic end
+    | [] => Ret d
+    | op :: rest => match omap fst (spec_op f d op) with Ret d' => spec_gen_run d' rest | Panic => Panic end
     end.
 
-  Lemma gen_op_spec : forall d op, gen_op d op = spec_op f d op.
+  Lemma gen_op_spec : forall d op, gen_op d op = omap fst (spec_op f d op).
   Proof. intros d [ev|hc|l]; simpl; [apply Hp | rewrite Hm; reflexivity | rewrite Hl; reflexivity]. Qed.
 
   Theorem gen_run_spec : forall ops d, gen_run d ops = spec_gen_run d ops.
   Proof.
     induction ops as [|op ops IH]; intros d; simpl; [reflexivity|].
-    rewrite gen_op_spec. destruct (spec_op f d op) as [[d' r]|]; [|reflexivity]. rewrite IH. reflexivity.
+    rewrite gen_op_spec. destruct (omap fst (spec_op f d op)) as [d'|]; [|reflexivity]. rewrite IH. reflexivity.
   Qed.
 
   Lemma spec_op_mods : forall d op d' r, spec_op f d op = Ret (d', r) ->
@@ -264,16 +263,15 @@ Section Generic.
   Qed.
 
   (* C04 for every layout: whenever a run returns, the reported modifiers are the history's reading *)
-  Theorem gen_mods_history : forall ops d d' rs,
-    gen_run d ops = Ret (d', rs) ->
+  Theorem gen_mods_history : forall ops d d',
+    gen_run d ops = Ret d' ->
     EventDecoder_modifiers d' = fold_left mods_step (events_of ops) (EventDecoder_modifiers d).
   Proof.
-    intros ops d d' rs H. rewrite gen_run_spec in H. revert d d' rs H.
-    induction ops as [|op ops IH]; intros d d' rs H; simpl in H.
-    - injection H as <- _. reflexivity.
-    - destruct (spec_op f d op) as [[d1 r]|] eqn:E; [|discriminate].
-      destruct (spec_gen_run d1 ops) as [[d2 rs2]|] eqn:E2; [|discriminate]. injection H as <- _.
-      rewrite (IH d1 d2 rs2 E2). rewrite (spec_op_mods d op d1 r E).
+    intros ops d d' H. rewrite gen_run_spec in H. revert d d' H.
+    induction ops as [|op ops IH]; intros d d' H; simpl in H.
+    - injection H as <-. reflexivity.
+    - destruct (spec_op f d op) as [[d1 r]|] eqn:E; [|discriminate]. cbn [omap fst] in H.
+      rewrite (IH d1 d' H). rewrite (spec_op_mods d op d1 r E).
       assert (Hev : events_of (op :: ops) = events_of [op] ++ events_of ops)
         by (unfold events_of; cbn [flat_map]; rewrite app_nil_r; reflexivity).
       rewrite Hev, fold_left_app. reflexivity.
